@@ -145,6 +145,11 @@ def run_tasks(tasks, workers=None, task_timeout=None):
                 c.close()
                 del running[c]
                 fn = getattr(f, "contract_fn", f.__name__)
+                if f.__name__ == "verify":
+                    # an engine-V task ran out of budget: the solver's problem, not the code's - the proof of that function is not available on this run
+                    cname = getattr(a[0], "name", "?") if a else "?"
+                    obs.append({"_prooflost": cname, "reason": "engine V exceeded its task budget (%d s CPU) on %s" % (limit, cname)})
+                    continue
                 obs.append(ob("%s:terminates[task %s%r]" % (fn, f.__name__, a), fn, FAILED, "B", "watchdog",
                               now - st, "the task did not finish within %d s of CPU time (8x that of wall time) and was killed "
                               "(non-termination or blow-up of the code under contract)" % task_timeout,
